@@ -5,6 +5,7 @@ package main
 // are filled by real code), every query is called and compared with the spec's expansion.
 
 import (
+	"math/big"
 	"bytes"
 	"encoding/json"
 	"fmt"
@@ -54,6 +55,7 @@ type c09Case struct {
 	N      int             `json:"n"`
 	Tab    json.RawMessage `json:"tab"`
 	Res    json.RawMessage `json:"res"`
+	Scales []int64         `json:"scales"`
 }
 
 // query runs f under recover and reports a panic as a violation of that query.
@@ -113,6 +115,35 @@ func c09Time(rep *Report, c *c09Case) error {
 	if err := json.Unmarshal(c.Res, &res); err != nil {
 		return err
 	}
+	scales := c.Scales
+	if len(scales) == 0 {
+		scales = []int64{1}
+	}
+	for _, k := range scales {
+		if err := c09TimeScaled(rep, c, tab, res.Decode, res.Attime, k); err != nil {
+			return err
+		}
+	}
+	return nil
+}
+
+// c09TimeScaled: the table with every duration multiplied by k; all expected times scale by k.
+func c09TimeScaled(rep *Report, c *c09Case, tab0 []runEntry, decode []struct {
+	Dts int `json:"dts"`
+	Dur int `json:"dur"`
+}, attime []int, k int64) error {
+	tab := make([]runEntry, len(tab0))
+	for i, r := range tab0 {
+		tab[i] = runEntry{r.N, int(int64(r.V) * k)}
+	}
+	var res struct {
+		Decode []struct{ Dts, Dur int64 }
+		Attime []int
+	}
+	for _, d := range decode {
+		res.Decode = append(res.Decode, struct{ Dts, Dur int64 }{int64(d.Dts) * k, int64(d.Dur) * k})
+	}
+	res.Attime = attime
 	b1, b2, err := decodeBoth(mStts(tab))
 	if err != nil {
 		rep.Violation("stts/decode", "valid stts rejected: "+err.Error(), J{"tab": tab})
@@ -120,17 +151,25 @@ func c09Time(rep *Report, c *c09Case) error {
 	}
 	for pi, bx := range []mp4.Box{b1, b2} {
 		stts := bx.(*mp4.SttsBox)
-		cs := J{"stts": tab, "path": pi}
+		cs := J{"stts": tab, "path": pi, "scale": k}
 		for s := 1; s <= c.N; s++ {
 			s := s
 			query(rep, "stts.GetDecodeTime", cs, func() {
 				dts, dur := stts.GetDecodeTime(uint32(s))
-				if int(dts) != res.Decode[s-1].Dts || int(dur) != res.Decode[s-1].Dur {
-					rep.Violation("stts/decodetime", "GetDecodeTime differs from the per-sample expansion", J{"stts": tab, "sample": s, "observed": []int{int(dts), int(dur)}, "expected": res.Decode[s-1]})
+				if int64(dts) != res.Decode[s-1].Dts || int64(dur) != res.Decode[s-1].Dur {
+					rep.Violation("stts/decodetime", "GetDecodeTime differs from the per-sample expansion", J{"stts": tab, "sample": s, "observed": []int64{int64(dts), int64(dur)}, "expected": res.Decode[s-1]})
+				}
+			})
+			query(rep, "stts.GetTimeCode", cs, func() {
+				// time code = decode time / timescale; timescale 2^20 ticks per second keeps the division exact in nanoseconds / 2^20
+				const ts = 1 << 20
+				want := new(big.Int).Div(new(big.Int).Mul(big.NewInt(res.Decode[s-1].Dts), big.NewInt(1000000000)), big.NewInt(ts))
+				if got := stts.GetTimeCode(uint32(s), ts); want.IsInt64() && int64(got) != want.Int64() {
+					rep.Violation("stts/timecode", "GetTimeCode differs from decode time / timescale", J{"stts": tab, "sample": s, "observed": int64(got), "expected": want.Int64()})
 				}
 			})
 			query(rep, "stts.GetDur", cs, func() {
-				if d := stts.GetDur(uint32(s)); int(d) != res.Decode[s-1].Dur {
+				if d := stts.GetDur(uint32(s)); int64(d) != res.Decode[s-1].Dur {
 					rep.Violation("stts/dur", "GetDur differs from the per-sample expansion", J{"stts": tab, "sample": s, "observed": d})
 				}
 			})
@@ -141,7 +180,7 @@ func c09Time(rep *Report, c *c09Case) error {
 				continue
 			}
 			query(rep, "stts.GetSampleNrAtTime", cs, func() {
-				nr, err := stts.GetSampleNrAtTime(uint64(t))
+				nr, err := stts.GetSampleNrAtTime(uint64(int64(t) * k))
 				if want == 0 {
 					if err == nil {
 						rep.Violation("stts/attime-no-error", "GetSampleNrAtTime returns a sample for a time beyond the end", J{"stts": tab, "time": t, "observed": nr})
